@@ -64,7 +64,7 @@ def event_token(ev):
         _, t, remote, mcl, mt, code, mid, tok, obs, body = ev[:10]
         return f"R@{t}:{remote}:{_b(mcl)}:{mt}:{code}:{mid}:{tok}:{_o(obs)}:{body}"
     if k == "P":
-        _, t, sv, mt, rel, code, obs, body, nr, mr, il = ev
+        _, t, sv, mt, rel, code, obs, body, nr, mr, il = ev[:11]
         return f"P@{t}:{sv}:{_o(mt)}:{'-' if rel is None else _b(rel)}:{code}:{_o(obs)}:{body}:{nr}:{mr}:{_b(il)}"
     if k in ("C", "E"):
         return f"{k}@{ev[1]}:{ev[2]}"
@@ -315,7 +315,8 @@ class Runner:
     def do_P(self, ev):
         import aiocoap
         from aiocoap.numbers.constants import TransportTuning
-        _, t, sv, mt, rel, code, obs, body, nr, mr, il = ev
+        _, t, sv, mt, rel, code, obs, body, nr, mr, il = ev[:11]
+        unsendable = len(ev) > 11 and ev[11]
         pipe = self.srv_pipes.get(sv)
         if pipe is None:
             return
@@ -342,6 +343,15 @@ class Runner:
             msg.payload = str(body).encode()
         if il:
             self.srv_done.add(sv)
+        if unsendable:
+            # a message that cannot be serialised (str payload): sending it raises into the application, which
+            # answers with a bare 5.00 instead, as error_to_message does (oracle-only scripts)
+            msg.payload = "text"
+            try:
+                pipe.add_response(msg, is_last=il)
+            except Exception:
+                pipe.add_response(aiocoap.Message(code=aiocoap.Code(160), transport_tuning=T()), is_last=il)
+            return
         pipe.add_response(msg, is_last=il)
 
     def do_H(self, ev):
